@@ -168,4 +168,353 @@ theorem specState_eq (e : Int) : specState e = exitToState e := by
   split <;> simp_all
 
 
+/-! ### single macros, layout, cache (helpers of the property theorems) -/
+
+theorem expand_dollar (look : Bytes → Lookup) (rec : Bytes → Res) (hempty : look [] = .notFound) :
+    expandMacro look rec false [] = .ok (.str [DOLLAR], false) := by
+  simp [expandMacro, expandCore, hempty, pure, Except.pure, bind, Except.bind]
+
+theorem expand_plain (look : Bytes → Lookup) (rec : Bytes → Res) (m v : Bytes) (hm : m ≠ [])
+    (hv : look m = .found (.str v) false) :
+    expandMacro look rec false m = .ok (.str v, false) := by
+  simp [expandMacro, expandCore, hv, hm, pure, Except.pure, bind, Except.bind]
+
+theorem fill_elem (key v : Bytes) (sep : Option Bytes) (addKey addValue : Bool) (rest : List Slot) (vs : List Bytes) :
+    fill key (sep.getD []) (elemSlots addKey addValue sep.isSome ++ rest) (v :: vs)
+      = addArgumentHelper key v addKey addValue sep ++ fill key (sep.getD []) rest vs := by
+  cases addKey <;> cases addValue <;> cases sep <;> simp [elemSlots, addArgumentHelper, fill]
+
+theorem emitArr_eq_fill (a : RArg) (first : Bool) (l : List Bytes) :
+    emitArr a first l = fill a.key (a.sep.getD []) (arrSlots a.skipKey a.repeatKey a.skipValue a.sep.isSome first l.length) l := by
+  induction l generalizing first with
+  | nil => simp [emitArr, arrSlots, fill]
+  | cons v vs ih =>
+    simp only [emitArr, List.length_cons, arrSlots, fill_elem, ih false]
+
+theorem consumers_append (x y : List Slot) : consumers (x ++ y) = consumers x + consumers y := by
+  induction x with
+  | nil => simp [consumers]
+  | cons s r ih => cases s <;> simp [consumers, ih] <;> omega
+
+theorem consumers_arrSlots (sk rk sv hs first : Bool) (n : Nat) : consumers (arrSlots sk rk sv hs first n) = n := by
+  induction n generalizing first with
+  | zero => simp [arrSlots, consumers]
+  | succ n ih =>
+    simp only [arrSlots, consumers_append, ih]
+    cases first <;> cases sk <;> cases rk <;> cases sv <;> cases hs <;> simp [elemSlots, consumers] <;> omega
+
+theorem expand_plain_esc (look : Bytes → Lookup) (rec : Bytes → Res) (m v : Bytes) (hm : m ≠ [])
+    (hv : look m = .found (.str v) false) :
+    expandMacro look rec true m = .ok (.str (escapeShellArg v), false) := by
+  simp [expandMacro, expandCore, hv, hm, escapeMacroShellArg, pure, Except.pure, bind, Except.bind]
+
+
+/-- The cache `c` is faithful for the macro `n` resolved under `look` (with `rec` one level deeper): it
+    holds the value after recursion iff the macro was found, and no macro nested in that value was missing. -/
+def CacheOK (look c : Bytes → Lookup) (rec : Bytes → Res) (n : Bytes) : Prop :=
+  if n = [] then look [] = .notFound ∧ (c [] = .notFound ∨ ∃ v, c [] = .found v false)
+  else ∃ v found, expandCore look rec n = .ok (v, found, false) ∧ c n = (if found then .found v false else .notFound)
+
+theorem expandCore_cached (look c : Bytes → Lookup) (rec rec' : Bytes → Res) (n : Bytes) (hn : n ≠ []) (v : Val) (found : Bool)
+    (h1 : expandCore look rec n = .ok (v, found, false)) (h2 : c n = (if found then .found v false else .notFound)) :
+    expandCore c rec' n = .ok (v, found, false) := by
+  cases found with
+  | true => simp [expandCore, h2, hn, pure, Except.pure, bind, Except.bind]
+  | false =>
+    have hv : v = .empty := by
+      cases hl : look n with
+      | notFound => simp [expandCore, hl, hn, pure, Except.pure, bind, Except.bind] at h1; exact h1.symm
+      | unsupported => simp [expandCore, hl, throw, throwThe, MonadExceptOf.throw] at h1
+      | found v' r =>
+        simp only [expandCore, hl, hn, if_false, bind, Except.bind] at h1
+        split at h1 <;> simp [pure, Except.pure] at h1
+    subst hv
+    simp [expandCore, h2, hn, pure, Except.pure, bind, Except.bind]
+
+theorem expandMacro_cached (look c : Bytes → Lookup) (rec rec' : Bytes → Res) (esc : Bool) (n : Bytes)
+    (h : CacheOK look c rec n) : expandMacro c rec' esc n = expandMacro look rec esc n := by
+  unfold CacheOK at h
+  by_cases hn : n = []
+  · subst hn
+    simp only [if_true] at h
+    obtain ⟨hl, hc⟩ := h
+    rcases hc with hc | ⟨v, hc⟩ <;>
+      simp [expandMacro, expandCore, hl, hc, pure, Except.pure, bind, Except.bind]
+  · simp only [hn, if_false] at h
+    obtain ⟨v, found, h1, h2⟩ := h
+    simp only [expandMacro, h1, expandCore_cached look c rec rec' n hn v found h1 h2]
+
+theorem concatToks_cached (look c : Bytes → Lookup) (rec rec' : Bytes → Res) (esc : Bool) (toks : List Tok)
+    (h : ∀ n ∈ macroNames toks, CacheOK look c rec n) :
+    concatToks c rec' esc toks = concatToks look rec esc toks := by
+  induction toks with
+  | nil => rfl
+  | cons t ts ih =>
+    cases t with
+    | lit b => simp only [concatToks, ih (fun n hn => h n (by simpa [macroNames] using hn))]
+    | unclosed => rfl
+    | mac n =>
+      have h1 := expandMacro_cached look c rec rec' esc n (h n (by simp [macroNames]))
+      simp only [concatToks, h1, ih (fun m hm => h m (by simp [macroNames, hm]))]
+
+
+/-! ### monotonicity in the recursion budget -/
+
+/-- `rec2` succeeds with the same result wherever `rec1` succeeds. -/
+def Extends (rec1 rec2 : Bytes → Res) : Prop := ∀ t r, rec1 t = .ok r → rec2 t = .ok r
+
+theorem resolveElems_mono (rec1 rec2 : Bytes → Res) (h : Extends rec1 rec2) :
+    ∀ l r, resolveElems rec1 l = .ok r → resolveElems rec2 l = .ok r := by
+  intro l
+  induction l with
+  | nil => intro r hr; simpa [resolveElems] using hr
+  | cons e es ih =>
+    intro r hr
+    by_cases he : e = []
+    · simp only [resolveElems, he, if_true, bind, Except.bind] at hr ⊢
+      cases h1 : resolveElems rec1 es with
+      | error x => simp [h1] at hr
+      | ok p => rw [h1] at hr; rw [ih p h1]; exact hr
+    · simp only [resolveElems, he, if_false, bind, Except.bind] at hr ⊢
+      cases h1 : rec1 e with
+      | error x => simp [h1] at hr
+      | ok p =>
+        rw [h1] at hr
+        rw [h e p h1]
+        simp only at hr ⊢
+        cases hs : p.1.scalarBytes with
+        | none => simp [hs, throw, throwThe, MonadExceptOf.throw] at hr
+        | some b =>
+          simp only [hs] at hr ⊢
+          cases h2 : resolveElems rec1 es with
+          | error x => simp [h2] at hr
+          | ok q => rw [h2] at hr; rw [ih q h2]; exact hr
+
+theorem expandCore_mono (look : Bytes → Lookup) (rec1 rec2 : Bytes → Res) (h : Extends rec1 rec2) (n : Bytes) :
+    ∀ r, expandCore look rec1 n = .ok r → expandCore look rec2 n = .ok r := by
+  intro r hr
+  cases hl : look n with
+  | unsupported => simp [expandCore, hl, throw, throwThe, MonadExceptOf.throw] at hr
+  | notFound => simpa [expandCore, hl] using hr
+  | found v isRec =>
+    cases isRec with
+    | false => simpa [expandCore, hl] using hr
+    | true =>
+      by_cases hn : n = []
+      · subst hn
+        simp only [expandCore, hl, if_true, bind, Except.bind] at hr ⊢
+        cases h1 : rec1 [DOLLAR] with
+        | error x => simp [h1] at hr
+        | ok p => rw [h1] at hr; rw [h _ p h1]; exact hr
+      · cases v with
+        | empty => simpa [expandCore, hl, hn] using hr
+        | str b =>
+          simp only [expandCore, hl, hn, if_false, if_true, bind, Except.bind] at hr ⊢
+          cases h1 : rec1 b with
+          | error x => simp [h1] at hr
+          | ok p => rw [h1] at hr; rw [h _ p h1]; exact hr
+        | arr l =>
+          simp only [expandCore, hl, hn, if_false, if_true, bind, Except.bind] at hr ⊢
+          cases h1 : resolveElems rec1 l with
+          | error x => simp [h1] at hr
+          | ok p => rw [h1] at hr; rw [resolveElems_mono rec1 rec2 h l p h1]; exact hr
+
+theorem expandMacro_mono (look : Bytes → Lookup) (rec1 rec2 : Bytes → Res) (h : Extends rec1 rec2) (esc : Bool) (n : Bytes) :
+    ∀ r, expandMacro look rec1 esc n = .ok r → expandMacro look rec2 esc n = .ok r := by
+  intro r hr
+  simp only [expandMacro, bind, Except.bind] at hr ⊢
+  cases h1 : expandCore look rec1 n with
+  | error x => simp [h1] at hr
+  | ok p => rw [h1] at hr; rw [expandCore_mono look rec1 rec2 h n p h1]; exact hr
+
+theorem concatToks_mono (look : Bytes → Lookup) (rec1 rec2 : Bytes → Res) (h : Extends rec1 rec2) (esc : Bool) :
+    ∀ toks r, concatToks look rec1 esc toks = .ok r → concatToks look rec2 esc toks = .ok r := by
+  intro toks
+  induction toks with
+  | nil => intro r hr; simpa [concatToks] using hr
+  | cons t ts ih =>
+    intro r hr
+    cases t with
+    | unclosed => simp [concatToks, throw, throwThe, MonadExceptOf.throw] at hr
+    | lit b =>
+      simp only [concatToks, bind, Except.bind] at hr ⊢
+      cases h1 : concatToks look rec1 esc ts with
+      | error x => simp [h1] at hr
+      | ok p => rw [h1] at hr; rw [ih p h1]; exact hr
+    | mac n =>
+      simp only [concatToks, bind, Except.bind] at hr ⊢
+      cases h1 : expandMacro look rec1 esc n with
+      | error x => simp [h1] at hr
+      | ok p =>
+        rw [h1] at hr
+        rw [expandMacro_mono look rec1 rec2 h esc n p h1]
+        simp only at hr ⊢
+        cases hs : p.1.scalarBytes with
+        | none => simp [hs, throw, throwThe, MonadExceptOf.throw] at hr
+        | some b =>
+          simp only [hs] at hr ⊢
+          cases h2 : concatToks look rec1 esc ts with
+          | error x => simp [h2] at hr
+          | ok q => rw [h2] at hr; rw [ih q h2]; exact hr
+
+
+/-! ### template lexer against byte lexer (string command lines) -/
+
+theorem shRun_escapeShellArg (s : ShSt) (hmode : s.mode = .unq) (v suffix : Bytes) :
+    shRun s (escapeShellArg v ++ suffix)
+      = shRun { done := s.done, cur := some (s.cur.getD [] ++ v), mode := .unq } suffix := by
+  obtain ⟨done, cur, mode⟩ := s
+  simp only at hmode
+  subst hmode
+  have h1 : shRun { done := done, cur := cur, mode := .unq } (escapeShellArg v ++ suffix)
+      = shRun { done := done, cur := some (cur.getD []), mode := .sq } (escBody v ++ SQUOTE :: suffix) := by
+    simp [escapeShellArg, shRun, shStep, SQUOTE, bind, Except.bind, pure, Except.pure]
+  rw [h1, shRun_append, shRun_escBody]
+  simp [shRun, shStep, bind, Except.bind, pure, Except.pure]
+
+theorem fillSym_append (vo : Bytes → Option Bytes) (a b : List Sym) : fillSym vo (a ++ b) = fillSym vo a ++ fillSym vo b := by
+  induction a with
+  | nil => rfl
+  | cons x xs ih => cases x <;> simp [fillSym, ih]
+
+theorem fill_getD (vo : Bytes → Option Bytes) (c : Option (List Sym)) :
+    (c.map (fillSym vo)).getD [] = fillSym vo (c.getD []) := by
+  cases c <;> simp [fillSym]
+
+theorem step_commutes (vo : Bytes → Option Bytes) (s : SymSt) (c : UInt8) :
+    shStep (fillSt vo s) c = (symStep s (.byte c)).map (fillSt vo) := by
+  obtain ⟨done, cur, mode⟩ := s
+  cases mode
+  · -- unq
+    simp only [shStep, symStep, fillSt]
+    by_cases h1 : c = SQUOTE
+    · simp [h1, Except.map, pure, Except.pure, fillSt, fill_getD]
+    · by_cases h2 : c = 34
+      · subst h2
+        simp [SQUOTE, Except.map, pure, Except.pure, fillSt, fill_getD]
+      · by_cases h3 : c = BSLASH
+        · subst h3
+          simp [SQUOTE, BSLASH, Except.map, pure, Except.pure, fillSt, fill_getD]
+        · by_cases h4 : (c = SPACE || c = 9) = true
+          · cases cur <;> simp [h1, h2, h3, h4, Except.map, pure, Except.pure, fillSt]
+          · by_cases h5 : shSpecial c = true
+            · simp [h1, h2, h3, h4, h5, Except.map, throw, throwThe, MonadExceptOf.throw]
+            · simp [h1, h2, h3, h4, h5, Except.map, pure, Except.pure, fillSt, ShSt.push, SymSt.push, fill_getD, fillSym_append, fillSym]
+  · -- sq
+    simp only [shStep, symStep, fillSt]
+    by_cases h1 : c = SQUOTE
+    · simp [h1, Except.map, pure, Except.pure, fillSt]
+    · simp [h1, Except.map, pure, Except.pure, fillSt, ShSt.push, SymSt.push, fill_getD, fillSym_append, fillSym]
+  · -- bs
+    simp only [shStep, symStep, fillSt]
+    by_cases h1 : c = LF
+    · simp [h1, Except.map, throw, throwThe, MonadExceptOf.throw]
+    · simp [h1, Except.map, pure, Except.pure, fillSt, ShSt.push, SymSt.push, fill_getD, fillSym_append, fillSym]
+  · -- dq
+    simp only [shStep, symStep, fillSt]
+    by_cases h1 : c = 34
+    · simp [h1, Except.map, pure, Except.pure, fillSt]
+    · by_cases h2 : (c = 36 || c = 96 || c = BSLASH) = true
+      · simp [h1, h2, Except.map, throw, throwThe, MonadExceptOf.throw]
+      · simp [h1, h2, Except.map, pure, Except.pure, fillSt, ShSt.push, SymSt.push, fill_getD, fillSym_append, fillSym]
+
+/-- Simulation: the byte lexer on the code's line and the template lexer on the template move in
+    lock step, the byte lexer's words being the template lexer's words with the values filled in. -/
+theorem lexer_simulation (vo : Bytes → Option Bytes) (syms : List Sym) :
+    ∀ s, UnqAtMacros s syms → shRun (fillSt vo s) (renderEsc vo syms) = (symRun s syms).map (fillSt vo) := by
+  induction syms with
+  | nil => intro s _; rfl
+  | cons x xs ih =>
+    intro s h
+    cases x with
+    | byte c =>
+      simp only [renderEsc, shRun, symRun, step_commutes]
+      cases hs : symStep s (.byte c) with
+      | error e => rfl
+      | ok s' => exact ih s' (h s' hs)
+    | mac n =>
+      obtain ⟨hm, h'⟩ := h
+      have hstep : symStep s (.mac n) = .ok (s.push (.mac n)) := by
+        obtain ⟨done, cur, mode⟩ := s
+        simp only at hm
+        subst hm
+        rfl
+      simp only [renderEsc, symRun, hstep]
+      rw [shRun_escapeShellArg (fillSt vo s) (by simpa [fillSt] using hm)]
+      have : ({ done := (fillSt vo s).done, cur := some ((fillSt vo s).cur.getD [] ++ (vo n).getD []), mode := .unq } : ShSt)
+          = fillSt vo (s.push (.mac n)) := by
+        simp [fillSt, SymSt.push, fill_getD, fillSym_append, fillSym, hm]
+      rw [this]
+      exact ih _ h'
+
+theorem escapeMacro_scalar (v : Val) (b : Bytes) (h : v.scalarBytes = some b) : escapeMacroShellArg v = escapeShellArg b := by
+  cases v <;> simp [Val.scalarBytes] at h <;> subst h <;> rfl
+
+/-- Every macro of the token list has a scalar value `valueOf n` under `look` (whatever bytes). -/
+def ScalarMacros (look : Bytes → Lookup) (rec : Bytes → Res) (vo : Bytes → Option Bytes) (toks : List Tok) : Prop :=
+  ∀ n ∈ macroNames toks, ∃ v2 fnd m b, expandCore look rec n = .ok (v2, fnd, m) ∧ v2.scalarBytes = some b ∧ vo n = some b
+
+/-- The line the model builds for a string command line is the template with every macro replaced by
+    `EscapeShellArg(value)`. -/
+theorem concatToks_renderEsc (look : Bytes → Lookup) (rec : Bytes → Res) (vo : Bytes → Option Bytes) :
+    ∀ toks syms, symLine toks = some syms → ScalarMacros look rec vo toks →
+      ∃ m, concatToks look rec true toks = .ok (renderEsc vo syms, m) := by
+  intro toks
+  induction toks with
+  | nil => intro syms hs _; simp [symLine] at hs; subst hs; exact ⟨false, rfl⟩
+  | cons t ts ih =>
+    intro syms hs hsc
+    cases t with
+    | unclosed => simp [symLine] at hs
+    | lit b =>
+      simp only [symLine, Option.map_eq_some_iff] at hs
+      obtain ⟨r, hr, rfl⟩ := hs
+      obtain ⟨m, hm⟩ := ih r hr (fun n hn => hsc n (by simpa [macroNames] using hn))
+      refine ⟨m, ?_⟩
+      have hren : ∀ (b : Bytes), renderEsc vo (b.map Sym.byte ++ r) = b ++ renderEsc vo r := by
+        intro b; induction b with
+        | nil => rfl
+        | cons c cs ihb => simp [renderEsc, ihb]
+      simp [concatToks, hm, hren, bind, Except.bind, pure, Except.pure]
+    | mac n =>
+      simp only [symLine, Option.map_eq_some_iff] at hs
+      obtain ⟨r, hr, rfl⟩ := hs
+      obtain ⟨m, hm⟩ := ih r hr (fun k hk => hsc k (by simp [macroNames, hk]))
+      obtain ⟨v2, fnd, m1, b, hcore, hsb, hvo⟩ := hsc n (by simp [macroNames])
+      refine ⟨(!fnd || m1) || m, ?_⟩
+      simp [concatToks, expandMacro, hcore, hm, escapeMacro_scalar v2 b hsb, Val.scalarBytes, renderEsc, hvo,
+        bind, Except.bind, pure, Except.pure]
+
+theorem internalResolve_esc (look : Bytes → Lookup) (fuel : Nat) (s : Bytes) :
+    internalResolve look (fuel + 1) true s
+      = (concatToks look (fun t => internalResolve look fuel false t) true (tokenize s)).map (fun r => (Val.str r.1, r.2)) := by
+  simp only [internalResolve]
+  split
+  · next n htok =>
+    simp only [htok, concatToks, expandMacro, bind, Except.bind]
+    cases expandCore look (fun t => internalResolve look fuel false t) n with
+    | error e => rfl
+    | ok p => simp [Val.scalarBytes, Except.map, pure, Except.pure]
+  · cases concatToks look (fun t => internalResolve look fuel false t) true (tokenize s) with
+    | error e => rfl
+    | ok p => rfl
+
+theorem finish_commutes (vo : Bytes → Option Bytes) (s : SymSt) :
+    (fillSt vo s).finish = s.finish.map (fun ws => ws.map (fillSym vo)) := by
+  obtain ⟨done, cur, mode⟩ := s
+  cases mode <;> cases cur <;>
+    simp [fillSt, ShSt.finish, SymSt.finish, Except.map, pure, Except.pure, throw, throwThe, MonadExceptOf.throw, List.map_reverse]
+
+/-- The byte lexer on the model's line = the template lexer on the template, values filled in. -/
+theorem shWords_renderEsc (vo : Bytes → Option Bytes) (syms : List Sym) (h : UnqAtMacros {} syms) :
+    shWords (renderEsc vo syms) = (symWords syms).map (fun ws => ws.map (fillSym vo)) := by
+  have hsim := lexer_simulation vo syms {} h
+  have h0 : fillSt vo {} = {} := rfl
+  rw [h0] at hsim
+  simp only [shWords, symWords, hsim, bind, Except.bind]
+  cases symRun {} syms with
+  | error e => rfl
+  | ok s => simpa [Except.map] using finish_commutes vo s
+
+
 end Icinga.C09
